@@ -622,6 +622,30 @@ func (c *FnCtx) specCall(env *SpecEnv, x *ast.CallExpr) *Val {
 				return &Val{T: fmt.Sprintf("((as const %s) %s)", so, arg(1).T), S: so}
 			}
 		}
+	case "fieldmap":
+		// fieldmap("pkg.Type.field"): the current content of a field over all objects of the type, as a map ref -> value
+		if bl, ok := x.Args[0].(*ast.BasicLit); ok && env.st != nil {
+			k, _ := strconv.Unquote(bl.Value)
+			parts := strings.Split(k, ".")
+			if len(parts) == 3 {
+				if pk := c.V.pkgs[parts[0]]; pk != nil {
+					if o := pk.Types.Scope().Lookup(parts[1]); o != nil {
+						if stt, _ := structOf(o.Type()); stt != nil {
+							for i := 0; i < stt.NumFields(); i++ {
+								if stt.Field(i).Name() == parts[2] {
+									fs := c.sortOf(stt.Field(i).Type())
+									if fs != SNone {
+										return &Val{T: c.heapGet(env.st, k, fs), S: arrSort(SInt, fs)}
+									}
+								}
+							}
+						}
+					}
+				}
+			}
+			c.specErr("fieldmap: unknown scalar field %s", k)
+		}
+		return &Val{T: c.fresh("specbad", SInt), S: SInt}
 	case "refof":
 		// refof(s[i]): the reference of the pseudo-object that holds a struct element of a slice of structs
 		a := arg(0)
